@@ -155,33 +155,36 @@ def c19_5(c: Ctx) -> None:
     g = c.cfg(u)
     k = loop.target.id if isinstance(loop, ast.For) and isinstance(loop.target, ast.Name) else 'attempt'
     sleeps = [n for n in own_nodes(u.node) if isinstance(n, ast.Call) and U(n.func) in ('asyncio.sleep', 'sleep')]
-    if len(sleeps) != 1:
-        c.fail(u, f'{len(sleeps)} sleep calls', 'the wait between attempts is not a single sleep')
+    if not sleeps:
+        c.fail(u, 'no sleep between attempts', 'retries happen without the promised wait')
         return
-    s = sleeps[0]
-    arg = s.args[0] if s.args else None
-    expr = arg
-    if isinstance(arg, ast.Name):
-        defs = [n for n in own_nodes(u.node) if isinstance(n, (ast.Assign, ast.AnnAssign, ast.AugAssign)) and U(n.targets[0] if isinstance(n, ast.Assign) else n.target) == arg.id]
-        if len(defs) != 1 or isinstance(defs[0], ast.AugAssign) or arg.id in u.params():
-            raise AnalysisError(f'C19.5 undecided: the sleep argument `{arg.id}` is computed in a form the canonicaliser cannot relate to a closed form ({len(defs)} definitions)')
-        expr = defs[0].value
     want = canon_src(f'wait * backoff_factor ** {k}')
-    got = canon(expr)
-    if got == want:
-        c.ok(where(u, s), f'sleep argument = {U(expr)} ≡ wait * backoff_factor ** {k}')
-    elif any(t[0] == 'opaque' for t in _flatten(got)):
-        raise AnalysisError(f'C19.5 undecided: cannot canonicalise the wait expression {U(expr)}')
-    else:
-        c.fail(u, f'wait expression is {U(expr)}', f'the wait before attempt k+1 is not wait*backoff_factor**k', node=s)
-    facts = Facts(lambda a: a == f'{k} < retries', cg=c.cg, unit=u)
-    bad = [p for n in g.nodes_of(q.stmt_of(s)) if (p := q.guard_search(g, n, f'{k} < retries', facts)) is not None]
-    if not bad:
-        c.ok(where(u, s), f'sleeps only when {k} < retries (another attempt follows)')
-    else:
-        c.fail(u, f'sleep not guarded by {k} < retries', 'retry waits after the last attempt (or the guard no longer matches the loop bound)', node=s, witness=c.path(g.entry, bad[0]))
-    if not isinstance(parent(s), ast.Await):
-        c.fail(u, 'sleep is not awaited', 'no wait happens between attempts', node=s)
+    for s in sleeps:
+        arg = s.args[0] if s.args else None
+        expr = arg
+        if isinstance(arg, ast.Name):
+            blk_defs = [n for n in own_nodes(u.node) if isinstance(n, (ast.Assign, ast.AnnAssign, ast.AugAssign)) and U(n.targets[0] if isinstance(n, ast.Assign) else n.target) == arg.id and n.lineno < s.lineno]
+            # the definition that reaches this sleep: the closest preceding one in an enclosing block of the sleep
+            reaching = [d for d in blk_defs if any(d in (q.block_of(q.stmt_of(x)) or []) for x in [s] + list(q.ancestors_of(s)) if isinstance(x, ast.AST) and not isinstance(x, ast.Module) and (x is s or isinstance(x, ast.stmt)))]
+            reaching = reaching or blk_defs
+            if not reaching or isinstance(reaching[-1], ast.AugAssign) or arg.id in u.params():
+                raise AnalysisError(f'C19.5 undecided: the sleep argument `{arg.id}` is computed in a form the canonicaliser cannot relate to a closed form')
+            expr = reaching[-1].value
+        got = canon(expr)
+        if got == want:
+            c.ok(where(u, s), f'sleep argument = {U(expr)} ≡ wait * backoff_factor ** {k}')
+        elif any(t[0] == 'opaque' for t in _flatten(got)):
+            raise AnalysisError(f'C19.5 undecided: cannot canonicalise the wait expression {U(expr)}')
+        else:
+            c.fail(u, f'wait expression is {U(expr)}', f'the wait before attempt k+1 is not wait*backoff_factor**k (k = the attempt index `{k}`)', node=s)
+        facts = Facts(lambda a: a == f'{k} < retries', cg=c.cg, unit=u)
+        bad = [p for n in g.nodes_of(q.stmt_of(s)) if (p := q.guard_search(g, n, f'{k} < retries', facts)) is not None]
+        if not bad:
+            c.ok(where(u, s), f'sleeps only when {k} < retries (another attempt follows)')
+        else:
+            c.fail(u, f'sleep not guarded by {k} < retries', 'retry waits after the last attempt (or the guard no longer matches the loop bound)', node=s, witness=c.path(g.entry, bad[0]))
+        if not isinstance(parent(s), ast.Await):
+            c.fail(u, 'sleep is not awaited', 'no wait happens between attempts', node=s)
 
 
 def _flatten(t):
@@ -220,6 +223,32 @@ def c19_6(c: Ctx) -> None:
             c.ok(where(u, final[0].ast), 'the arm re-raises with bare `raise` (the original exception object)')
         else:
             c.fail(u, f'attempt arm raises {[q.stmt_text(n.ast, 40) for n in typed] or "nothing"}', 'the last exception is not propagated as itself', node=a)
+
+
+
+@ob('C19.7', 'FLOW', 'the decorator arguments (retries, timeout, wait, backoff_factor, retry_on) reach _execute_with_retries unchanged: they are never reassigned or normalised on '
+    'the way (an empty retry_on tuple must stay an empty tuple: "retry nothing", not "retry everything")')
+def c19_7(c: Ctx) -> None:
+    core = c.unit(HLP, '_execute_with_retries')
+    w = c.unit(HLP, 'retry.decorator.wrapper')
+    outer = c.unit(HLP, 'retry')
+    calls = [call for cu, call in c.cg.callers(core) if cu.key == w.key]
+    c.floor(len(calls), 1, 'call of _execute_with_retries in wrapper')
+    cps = core.params()
+    scopes = [outer, c.unit(HLP, 'retry.decorator'), w]
+    for call in calls:
+        for name in ('retries', 'timeout', 'wait', 'backoff_factor', 'retry_on'):
+            if name not in cps or name not in outer.params():
+                c.fail(w, f'parameter {name} missing from retry() or _execute_with_retries', f'retry() no longer takes / forwards {name}')
+                continue
+            i = cps.index(name)
+            arg = call.args[i] if i < len(call.args) else q.kw(call, name)
+            rebound = [n for sc in scopes for n in own_nodes(sc.node) if isinstance(n, (ast.Assign, ast.AnnAssign, ast.AugAssign)) and any(isinstance(t, ast.Name) and t.id == name for t in (n.targets if isinstance(n, ast.Assign) else [n.target]))]
+            if arg is not None and U(arg) == name and not rebound:
+                c.ok(where(w, call), f'{name} is passed through unchanged')
+            else:
+                c.fail(w, f'{name} reaches _execute_with_retries as `{U(arg)[:50] if arg is not None else "<missing>"}`' + (' (rebound on the way)' if rebound else ''),
+                       f'the {name} the user configured is not the one the retry loop uses' + (': an empty retry_on collapses to None and every exception is retried' if name == 'retry_on' else ''), node=call)
 
 
 OBLIGATIONS = ob.obs
